@@ -131,7 +131,7 @@ def canon_hash(obj) -> str:
 class Run:
     """One run of one check: collects cases, violations, writes evidence, decides the exit code."""
 
-    def __init__(self, pid: str, tier: str, seed: int, *, rule: str, level: str = "proof"):
+    def __init__(self, pid: str, tier: str, seed: int, *, rule: str, level: str = "proof", clean: bool = True):
         self.pid, self.tier, self.seed, self.rule, self.level = pid, tier, seed, rule, level
         self.t0 = PROCESS_T0
         self.evaluations = 0
@@ -148,6 +148,11 @@ class Run:
         self.known = [k for k in load_known_findings() if k.get("property") == pid and k.get("status") == "open"]
         self.exact = 0
         self.tolerance = 0
+        # stale replay files of an earlier run with the same seed would be misleading
+        if clean and os.path.isdir(REPLAY_DIR):
+            for f in os.listdir(REPLAY_DIR):
+                if f.startswith(f"{pid}_{seed}_") and f.endswith(".json"):
+                    os.remove(os.path.join(REPLAY_DIR, f))
 
     # -- bookkeeping ------------------------------------------------------------------------
     def case(self, scenario_key, *, nontrivial: bool, sample=None, features: dict | None = None):
